@@ -161,7 +161,8 @@ fn redeclare(img: &mut Value, which: u8, val: u8, dyn_img: Option<&Value>) -> Ve
         }
         _ => {
             // blow-up changed with all heights and the FRI input size
-            let d: i64 = [-1i64, 1, 2][val as usize % 3];
+            let cur = get(img, "/config/log_n_cosets") as i64;
+            let d: i64 = [-1i64, 1, 2, (16 - cur).max(1), (12 - cur).max(1)][val as usize % 5];
             for p in ["/config/log_n_cosets", "/config/traces/original/vector/height", "/config/traces/interaction/vector/height", "/config/composition/vector/height", "/config/fri/log_input_size"] {
                 let v = get(img, p) as i64 + d;
                 if v >= 0 {
